@@ -1,8 +1,87 @@
-// M for types (layer L3): filled in by emitTypes once coq/Model/TypePrint.v exists.
+// M for types (layer L3): the decoded type, its printed text and the decoded result of parsing that text,
+// against print_ty / reparse of coq/Model/TypePrint.v.
 package main
 
-import "verifharness/lib"
+import (
+	"encoding/json"
+	"fmt"
+	"sort"
 
-func addTypeCase(e *emitter, in input, o Obs) {}
+	"github.com/lyraproj/pcore/types"
 
-func flushTypes(e *emitter, cfg *lib.Config, res *lib.Result, budget int) {}
+	"verifharness/lat"
+	"verifharness/lib"
+)
+
+var floatTable = map[string]string{}
+
+func addTypeCase(e *emitter, in input, o Obs) {
+	if o.Aux["printclass"] != "ok" || o.Aux["dec"] == "" {
+		return
+	}
+	// The resolving half of the tie leaves out the by-specification exception (the parsed type differs from T, so
+	// the oracle table of undef-accepting types, taken from T, does not describe it) and the open findings of the
+	// text layer (the expression level model has no text); the printing half is compared for every type.
+	full := !(exactStringPrintsAsString(in.Recipe, "") || len(typeTags(in.Recipe)) > 0)
+	var dec, dec2 types.VerifTy
+	if json.Unmarshal([]byte(o.Aux["dec"]), &dec) != nil || !lat.InModel(&dec) {
+		return
+	}
+	t2 := "(@None ty)"
+	if full && o.Aux["parseclass"] == "ok" {
+		if json.Unmarshal([]byte(o.Aux["dec2"]), &dec2) != nil || !lat.InModel(&dec2) {
+			return
+		}
+		t2 = "(Some " + lat.GTy(&dec2) + ")"
+	}
+	var au []*types.VerifTy
+	_ = json.Unmarshal([]byte(o.Aux["au"]), &au)
+	var aus []string
+	seen := map[string]bool{}
+	for _, a := range au {
+		if !lat.InModel(a) {
+			continue
+		}
+		g := lat.GTy(a)
+		if !seen[g] {
+			seen[g] = true
+			aus = append(aus, g)
+		}
+	}
+	fl := map[string]string{}
+	_ = json.Unmarshal([]byte(o.Aux["floats"]), &fl)
+	for k, v := range fl {
+		floatTable[k] = unhex(v)
+	}
+	term := fmt.Sprintf("(%s, %s, %s, %s, %s)", lat.GTy(&dec), lib.GStr(unhex(o.Out)), t2, lib.GList(aus, "ty"), lib.GBool(full))
+	e.types = append(e.types, mcase{term, in, in.Family == "random", e.failed})
+}
+
+func flushTypes(e *emitter, cfg *lib.Config, res *lib.Result, budget int) {
+	if len(e.types) == 0 && cfg.Replay != "" {
+		return
+	}
+	var keys []string
+	for k := range floatTable {
+		keys = append(keys, k)
+	}
+	sort.Strings(keys)
+	var fs []string
+	for _, k := range keys {
+		fs = append(fs, fmt.Sprintf("((%s)%%Z, %s)", k, lib.GStr(floatTable[k])))
+	}
+	prelude := "Definition floats : list (Z * str) := " + lib.GList(fs, "Z * str") + ".\n"
+	cs := pick(e.types, 2*budget)
+	for sh := 0; sh*1000 < len(cs) || (sh == 0 && len(cs) == 0); sh++ {
+		hi := (sh + 1) * 1000
+		if hi > len(cs) {
+			hi = len(cs)
+		}
+		cf := &lib.CasesFile{Imports: []string{"Model.Base", "Model.Ty", "Model.QuoteLex", "Model.TypePrint", "Corr.CorrC05"},
+			Typ: "ty * str * option ty * list ty * bool", Obligations: map[string]string{"type_print_reparse": "type_mismatches floats cases"}, Prelude: prelude}
+		for _, c := range cs[sh*1000 : hi] {
+			cf.Add(c.term, c.in)
+		}
+		res.CorrFiles = append(res.CorrFiles, cf.WriteTo(cfg.Out, fmt.Sprintf("cases_types_%d", sh)))
+	}
+}
